@@ -44,7 +44,7 @@ func genCase(t *rapid.T) Case {
 		op := Op{K: rapid.SampledFrom(kinds).Draw(t, "k")}
 		switch op.K {
 		case "set", "setresult":
-			op.Err = rapid.SampledFrom([]string{"", "", "custom", "canceled", "deadline"}).Draw(t, "err")
+			op.Err = rapid.SampledFrom([]string{"", "", "custom", "canceled", "deadline", "wrapcanceled", "wrapdeadline"}).Draw(t, "err")
 			op.Pick = rapid.IntRange(0, 5).Draw(t, "pick")
 		case "await":
 			op.Kind = rapid.SampledFrom([]string{"plain", "errch", "cancelch"}).Draw(t, "kind")
@@ -73,6 +73,11 @@ func errOf(kind string, id int) error {
 		return context.Canceled
 	case "deadline":
 		return context.DeadlineExceeded
+	case "wrapcanceled":
+		// an ordinary error value that wraps the sentinel: awaiters get exactly this value back
+		return fmt.Errorf("result-%d gave up: %w", id, context.Canceled)
+	case "wrapdeadline":
+		return fmt.Errorf("result-%d timed out: %w", id, context.DeadlineExceeded)
 	}
 	return nil
 }
